@@ -2,6 +2,8 @@
 
 package collect
 
+import "github.com/honeycombio/refinery/types"
+
 // SimHeapAlloc, when set by the simulation harness, replaces the heap reading
 // used by checkAlloc so that memory pressure is a controlled input.
 var SimHeapAlloc func(i *InMemCollector, real uint64) uint64
@@ -25,4 +27,16 @@ func outgoingQueueCap(i *InMemCollector, n int) int {
 		}
 	}
 	return n
+}
+
+// SimOrderTraces, when set by the simulation harness, puts the traces a worker
+// has read from its cache (a map: Go's iteration order) into an order of the
+// harness's choosing before they are sorted by impact, so that which of several
+// equally heavy traces is ejected first is decided by the simulation.
+var SimOrderTraces func(ts []*types.Trace)
+
+func orderTraces(ts []*types.Trace) {
+	if SimOrderTraces != nil {
+		SimOrderTraces(ts)
+	}
 }
